@@ -215,12 +215,34 @@ func runNodeIndex(p *core.Program, r *core.Report) {
 				r.OK(rule, construct, p.InsPos(ins), "index within the node ["+facts.String()+"]")
 			} else if why, ok := nodeIndexAudit[construct]; ok {
 				r.Audit(rule, construct, p.InsPos(ins), why)
+			} else if nodeAndIndexOfOneRecord(base, idx) {
+				// (the same audit, recognised by shape so that renaming the
+				// record or its fields does not orphan it)
+				r.Audit(rule, construct, p.InsPos(ins), "node and index are the two fields of one path record of the iterator, which stores only indices it has just used on that node (masked) or a counter it compared with len(node)")
 			} else {
 				r.Bad(rule, construct, p.InsPos(ins), "a tree node of "+fmtInt(arr.Len())+" slots is indexed by a value not proven to be below "+fmtInt(arr.Len())+" [known: "+facts.String()+"]: at the lengths where the tree has more than one level the index selects a slot outside the node and the operation crashes (the index must be masked with the chunk mask at every level)")
 			}
 		})
 	}
 	r.Count(rule+" indexed accesses of tree nodes", n)
+}
+
+// nodeAndIndexOfOneRecord: base and idx are loads of two fields of the same
+// struct value (e.node[e.index]).
+func nodeAndIndexOfOneRecord(base, idx ssa.Value) bool {
+	owner := func(v ssa.Value) ssa.Value {
+		switch x := v.(type) {
+		case *ssa.Field:
+			return x.X
+		case *ssa.UnOp:
+			if fa, ok := x.X.(*ssa.FieldAddr); ok && x.Op == token.MUL {
+				return fa.X
+			}
+		}
+		return nil
+	}
+	a, b := owner(base), owner(idx)
+	return a != nil && a == b
 }
 
 var nodeIndexAudit = map[string]string{
